@@ -323,8 +323,11 @@ class Gen:
         n = r.choice(self.POOL)
         if p < 0.3:
             bs = [[n, self.argspec(v, depth)]]
-            if r.random() < 0.3:
-                bs.append([r.choice(self.POOL), self.argspec(v, depth)])
+            if r.random() < 0.4:
+                # a later keyword whose value reads a name (possibly the one bound just before)
+                val = self.argspec(v, depth) if r.random() < 0.5 else \
+                    {'k': 'sRead', 'name': r.choice(self.POOL), 'steps': [], 'item': r.random() < 0.5}
+                bs.append([r.choice(self.POOL), val])
             seen, out = set(), []
             for k, s in bs:
                 if k not in seen:
@@ -335,7 +338,10 @@ class Gen:
         if p < 0.7:
             return {'k': 'aGlob', 'name': n}
         if p < 0.8:
-            return {'k': 'sBind', 'bs': [['vv', {'k': 'vars', 'defaults': [[r.choice(self.POOL), jv(r.choice([0, 'dv']))]] if r.random() < 0.5 else []}]]}
+            v = {'k': 'vars', 'defaults': [[r.choice(self.POOL), jv(r.choice([0, 'dv']))]] if r.random() < 0.5 else []}
+            if r.random() < 0.4:
+                v['base'] = [[r.choice(self.POOL), jv(r.choice([5, 'bv']))]]
+            return {'k': 'sBind', 'bs': [['vv', v]]}
         if p < 0.88:
             return {'k': 'aVar', 'var': 'vv', 'name': n}
         if p < 0.94:
@@ -465,3 +471,46 @@ class Gen:
                                              shape(d - 1)] for k in ks]}
             return {'k': r.choice(['set', 'fset']), 'xs': [{'k': 'lit', 'v': jv(x)} for x in r.sample([1, 2, 'a'], r.randint(0, 2))]}
         return {'k': 'fill', 's': shape(depth)}
+
+    def s_argshape(self, v, depth):
+        """a container with T leaves in argument position (Coalesce default, Call args/kwargs, S(k=..) value),
+        evaluated once per item of a list of distinct records, optionally after an access step of the same chain"""
+        r = self.rng
+        leaf = lambda: r.choice([{'k': 't', 'steps': []}, {'k': 't', 'steps': [['[', jv('id')]]},
+                                 {'k': 'lit', 'v': jv('n/a')}, {'k': 'str', 's': 'id'}])
+
+        def cont(d):
+            p = r.random()
+            if d <= 0 or p < 0.3:
+                return leaf()
+            if p < 0.6:
+                return {'k': 'list', 'xs': [cont(d - 1) for _ in range(r.randint(1, 3))]}
+            if p < 0.8:
+                return {'k': 'tuple', 'xs': [cont(d - 1) for _ in range(r.randint(1, 3))]}
+            return {'k': 'dict', 'es': [[{'k': 'str', 's': k}, cont(d - 1)] for k in r.sample(['u', 'w', 'z'], r.randint(1, 2))]}
+        c = cont(2)
+        if c['k'] not in ('list', 'tuple', 'dict'):
+            c = {'k': 'list', 'xs': [c, leaf()]}
+        p = r.random()
+        if p < 0.35:
+            per_item = {'k': 'coalesce', 'subs': [{'k': 'str', 's': r.choice(['name', 'zz'])}], 'dflt': c,
+                        'dflt_factory': None, 'skip': None, 'skip_exc': ['GlomError']}
+        elif p < 0.6:
+            f = self.fn('pack')
+            per_item = {'k': 'call', 'func': f, 'args': c if c['k'] != 'dict' else {'k': 'tuple', 'xs': [c]},
+                        'kwargs': {'k': 'dict', 'es': [[{'k': 'str', 's': 'u'}, cont(1)]]}}
+        elif p < 0.8:
+            per_item = {'k': 'tuple', 'xs': [{'k': 'sBind', 'bs': [['k1', c]]},
+                                             {'k': 'sRead', 'name': 'k1', 'steps': [], 'item': False}]}
+        else:
+            per_item = {'k': 'fill', 's': c}
+        mapped = {'k': 'list', 'xs': [per_item]}
+        if r.random() < 0.6:
+            return {'k': r.choice(['tuple', 'pipe']), 'xs': [{'k': 'str', 's': 'rows'}, mapped]}
+        return {'k': 'tuple', 'xs': [{'k': 't', 'steps': [['[', jv('rows')]]}, mapped]}
+
+    @staticmethod
+    def rows_target(rng):
+        n = rng.randint(2, 4)
+        return {'rows': [{'id': i * 10 + rng.randint(0, 5), **({'name': 'n%d' % i} if rng.random() < 0.4 else {})}
+                         for i in range(n)], 'id': -1}
